@@ -63,7 +63,8 @@ Read(li) ==
           IN \E n \in 1..(IF len < room THEN len ELSE room) :
                LET t1 == s.pos + Shl(n, s.hs)
                    e == [e |-> "ReadF", len |-> len, ret |-> n, cl |-> s.closes, ta |-> s.pos, id |-> s.pos, mf |-> 0,
-                         bs |-> lk - 1, ch |-> F.links[lk].ch, tell |-> t1, tella |-> t1]
+                         bs |-> lk - 1, ch |-> F.links[lk].ch, tell |-> t1, tella |-> t1,
+                         lbk |-> IF s.lap > n THEN n ELSE s.lap, lbbad |-> 0]     \* the ideal implementation cross-fades as specified
                IN /\ bad' = bad \cup (ChkReadF(s, F, e) \ {"ReadWithinOneLink"}) /\ s' = NxtRead(s, F, e, n)
   /\ Record(<<"rf", li>>)
 
@@ -81,8 +82,13 @@ Seek(op, l, w, d) ==
                   ELSE { b \in Boundaries : B(F,p) <= b /\ b <= p }
      IN IF inr
         THEN \E t \in lands :
-               LET e == [e |-> k, pos |-> p, expect |-> p, inrange |-> TRUE, neg |-> FALSE, ret |-> 0, tell |-> t, t0 |-> s.pos, cl |-> s.closes,
-                         rs |-> 4, rs0 |-> 4, cur |-> 0, cur0 |-> 0]
+               LET c0 == (IF s.pos >= 0 THEN LinkOf(F, s.pos) ELSE 1) - 1
+                   e0 == [e |-> k, pos |-> p, expect |-> p, inrange |-> TRUE, neg |-> FALSE, ret |-> 0, tell |-> t, t0 |-> s.pos, cl |-> s.closes,
+                          rs |-> 4, rs0 |-> 4, cur |-> LinkOf(F, t) - 1, cur0 |-> c0]
+                   \* what a harness that follows the property would log beside a lapping call: its expectation is formed from the old position
+                   \* and link, the new position and link and the region length; the ideal decoder has a whole short block pending
+                   e == IF IsLap(k) THEN e0 @@ [lbn |-> LapLen(s, F, e0), lbfrom |-> s.pos, lblo |-> c0, lbat |-> t, lbln |-> LinkOf(F, t) - 1, dc |-> 4, dr |-> 0]
+                        ELSE e0
                IN /\ bad' = bad \cup ChkSeek(s, F, k, e, F.len) /\ s' = NxtSeek(s, F, k, e, F.len)
         ELSE LET e == [e |-> k, pos |-> p, expect |-> p, inrange |-> FALSE, neg |-> (p < 0), ret |-> OV_EINVAL, tell |-> s.pos, t0 |-> s.pos, cl |-> s.closes,
                        rs |-> 4, rs0 |-> 4, cur |-> 0, cur0 |-> 0]
@@ -133,6 +139,18 @@ Sensitive == s.open /\ s.pos >= 0 /\ s.pos < F.total /\ s.lap = 0 =>
       /\ ChkReadF(s, F, [good EXCEPT !.tella = s.pos + 3]) # {}
       /\ ChkReadF(s, F, [good EXCEPT !.ta = s.pos + 1]) # {}
       /\ ChkReadF(s, F, [good EXCEPT !.bs = lk]) # {}
+
+\* a lapped region that is held to the cross-fade formula: a read that reports one sample off, or that compared fewer samples than
+\* lie in the region, is caught; the same read without a decided region is not judged
+BlendSensitive == s.open /\ s.pos >= 0 /\ s.pos < F.total /\ s.lap > 0 /\ ~Loose(s,F) =>
+   LET lk == LinkOf(F, s.pos)
+       good == [e |-> "ReadF", len |-> 1, ret |-> 1, cl |-> s.closes, ta |-> s.pos, id |-> s.pos, mf |-> 0, bs |-> lk - 1, ch |-> F.links[lk].ch,
+                tell |-> s.pos + Shl(1, s.hs), tella |-> s.pos + Shl(1, s.hs), lbk |-> 1, lbbad |-> 0]
+   IN /\ "LapBlendAsSpecified" \notin ChkReadF(s, F, good)
+      /\ (s.bl <=> "LapBlendAsSpecified" \in ChkReadF(s, F, [good EXCEPT !.lbbad = 1]))
+      /\ (s.bl <=> "LapBlendAsSpecified" \in ChkReadF(s, F, [good EXCEPT !.lbk = 0]))
+\* non-vacuity (expected to be VIOLATED, VFApi_MC_blendwit.cfg): some history reaches a decided region
+NoDecidedRegion == ~(s.open /\ s.lap > 0 /\ s.bl)
 
 \* behaviour export: print the caller side of every behaviour that reached MaxLen (or cleared)
 Export == (Len(hist) = MaxLen \/ (Len(hist) > 2 /\ ~s.open)) => PrintT("HIST " \o ToJson(hist))
